@@ -79,6 +79,20 @@ func NewEngine(repo, verif string, patterns []string) (*Engine, error) {
 		e.pkgs[p.Pkg.Path()] = p
 	}
 	packages.Visit(pkgs, nil, func(p *packages.Package) { e.ppkgs[p.PkgPath] = p })
+	// deterministic dynamic-type tags: every named type of the program (and its pointer type),
+	// numbered in the order of their type strings (map iteration order must not leak into the VCs)
+	var named []types.Type
+	for _, p := range prog.AllPackages() {
+		for _, m := range p.Members {
+			if tn, ok := m.(*ssa.Type); ok {
+				named = append(named, tn.Type(), types.NewPointer(tn.Type()))
+			}
+		}
+	}
+	sort.Slice(named, func(i, j int) bool { return types.TypeString(named[i], nil) < types.TypeString(named[j], nil) })
+	for _, t := range named {
+		e.typeTag(t)
+	}
 	return e, nil
 }
 
